@@ -1,6 +1,7 @@
 // C01IMPL correspondence harness: runs zrnt's exported block-operation functions on small hand-built states and prints
 // each observation as a case of coq/Beacon/Refine/BlockImplRun.v (impl_ok: Go = Impl model of Beacon/Impl/BlockOps.v;
-// spec_ok: Go = Spec function; findings: known findings reproduced on the real code).
+// spec_ok: Go = Spec function).  C19 conventions: cases_k.v ends with `Definition M := Eval vm_compute in mismatches cases.`,
+// code bit 1 = Go differs from the Impl model, bit 2 = Go differs from the Spec on an in-domain input.
 //
 //	capella.GetExpectedWithdrawals, capella.ProcessWithdrawals, phase0.InitiateValidatorExit, phase0.SlashValidator,
 //	altair.ProcessSyncAggregate (real BLS keys = small integers, real signatures), phase0.ProcessDeposits (real Merkle
@@ -356,7 +357,7 @@ func run(env *Env) error {
 	env.CaseType = "bcase"
 	env.ShardSize = 60
 	env.ShardBytes = 40000
-	env.Rule = "zrnt's exported block-operation functions on hand-built states (one active validator = the proposer); non-trivial = the call returned without error, or is a known-finding shape; distinct = the Coq term"
+	env.Rule = "zrnt's exported block-operation functions on hand-built states (one active validator = the proposer); non-trivial = the call returned without error; distinct = the Coq term; kinds sync_bad_shape and deposits_count_below_index are the inputs on which the pinned snapshot (before /repo 74b46c6, 9bd2c6a) differed from the Spec"
 	ctx := context.Background()
 	r := env.Rng
 	nEach := env.N(40, 400)
@@ -586,7 +587,7 @@ func run(env *Env) error {
 			bits[i] = r.Chance(60)
 		}
 		kind := "sync"
-		if r.Chance(35) { // the shape of the batching finding: the proposer is a poor non-participating member, after a participant
+		if r.Chance(35) { // the shape that refuted the pinned snapshot's batching: the proposer is a poor non-participating member, after a participant
 			kind = "sync_bad_shape"
 			j := 1 + r.Intn(size-1)
 			comm[j], bits[j] = prop, false
